@@ -132,7 +132,7 @@ func init() {
 			// Deep emphasis strings: the delimiter stack with its search bounds needs
 			// a dozen and more symbols before entries are deleted and searched again;
 			// only Parse and one Render are run here to afford that depth.
-			for _, p := range []planEntry{{spaces.Emph4, 12, 14}, {spaces.Emph3, 14, 16}} {
+			for _, p := range []planEntry{{spaces.Emph4, 12, 14}, {spaces.Emph3, 14, 16}, {spaces.XDRuns, 6, 7}} {
 				sp := p.sp
 				n := c.Pick(p.quick, p.thorough)
 				c.Explore(sp.Name+"-parse", fmt.Sprintf("all inputs of <=%d tokens over %q: Parse and default Render only", n, sp.Tokens), -1, n, func(x *X) {
